@@ -95,18 +95,18 @@ func vfC13CheckDedup(sb SeqBag, groups [][]string, orig [][]uint8, alphabet int,
 	return k
 }
 
-func vfC13Dedup(nmax, lmax int) {
-	n := nondetRange(1, nmax)
+func vfC13Dedup(nmin, nmax, lmax, nalphabets int, residue func(uint8) bool) {
+	n := nondetRange(nmin, nmax)
 	L := nondetRange(1, lmax)
 	alphabet := NUCLEOTIDS
-	switch nondetRange(0, 2) {
-	case 0:
-		alphabet = AMINOACIDS
+	switch nondetRange(1, nalphabets) {
 	case 2:
+		alphabet = AMINOACIDS
+	case 3:
 		alphabet = UNKNOWN
 	}
 	nAsGap := nondetRange(0, 1) == 1
-	al, orig := vfSymAlign(alphabet, n, L, vfC13Residue)
+	al, orig := vfSymAlign(alphabet, n, L, residue)
 	groups, err := al.Deduplicate(nAsGap)
 	verifReach("dedup")
 	verifAssert(err == nil, "no error")
@@ -133,16 +133,18 @@ func vfC13Dedup(nmax, lmax int) {
 // H_C13_dedup: Deduplicate keeps exactly the first occurrences in order, groups partition the names, idempotent.
 // bounds: alignment with n<=3 rows, L<=2 columns, residues in {A,C,N,X,-}, alphabet in {amino acids, nucleotides, unknown}, nAsGap in {false,true}
 // outside: n>3, L>2, other residues (lower-case n/x: not stated whether they are wildcards), sequence comments
-func H_C13_dedup() { vfC13Dedup(3, 2) }
+func H_C13_dedup() { vfC13Dedup(1, 3, 2, 3, vfC13Residue) }
 
-// H_C13_dedup_deep: same as H_C13_dedup with deeper bounds.
-// bounds: n<=4 rows, L<=3 columns, residues in {A,C,N,X,-}, the three alphabets, nAsGap in {false,true}
-// outside: n>4, L>3
+// H_C13_dedup_deep: four rows (up to 15 ways of being pairwise identical), nucleotide alphabet only.
+// bounds: n=4 rows, L<=2 columns, residues in {A,N,-}, nucleotide alphabet, nAsGap in {false,true}
+// outside: n>4, L>2, other residues and alphabets (covered for n<=3 by H_C13_dedup)
 // verif: tier=thorough
-func H_C13_dedup_deep() { vfC13Dedup(4, 3) }
+func H_C13_dedup_deep() {
+	vfC13Dedup(4, 4, 2, 1, func(c uint8) bool { return c == 'A' || c == 'N' || c == '-' })
+}
 
-func vfC13DedupBag(nmax, lmax int) {
-	n := nondetRange(1, nmax)
+func vfC13DedupBag(nmin, nmax, lmax int) {
+	n := nondetRange(nmin, nmax)
 	alphabet := NUCLEOTIDS
 	if nondetRange(0, 1) == 0 {
 		alphabet = AMINOACIDS
@@ -180,13 +182,13 @@ func vfC13DedupBag(nmax, lmax int) {
 // H_C13_dedup_bag: Deduplicate on an unaligned sequence set (rows of different lengths, prefixes of one another, empty rows).
 // bounds: n<=3 sequences of individual lengths 0..2, residues in {A,C,N,X,-}, alphabet amino acids or nucleotides, nAsGap in {false,true}
 // outside: n>3, lengths>2
-func H_C13_dedup_bag() { vfC13DedupBag(3, 2) }
+func H_C13_dedup_bag() { vfC13DedupBag(1, 3, 2) }
 
-// H_C13_dedup_bag_deep: as H_C13_dedup_bag, deeper.
-// bounds: n<=4 sequences of individual lengths 0..2
-// outside: n>4, lengths>2
+// H_C13_dedup_bag_deep: four sequences, each empty or of one residue.
+// bounds: n=4 sequences of individual lengths 0..1, residues in {A,C,N,X,-}, alphabet amino acids or nucleotides, nAsGap in {false,true}
+// outside: n>4, longer sequences (covered for n<=3 by H_C13_dedup_bag)
 // verif: tier=thorough
-func H_C13_dedup_bag_deep() { vfC13DedupBag(4, 2) }
+func H_C13_dedup_bag_deep() { vfC13DedupBag(4, 4, 1) }
 
 func vfC13SameCol(a [][]uint8, ca int, b [][]uint8, cb int) bool {
 	eq := true
